@@ -10,7 +10,7 @@ from pyvc.sstr import SStr, Fmt, Atom, sstr_concat
 from pyvc.report import Task
 from pyvc.tasks import repo, budget, result_dict
 from pyvc.solve import Obligation, discharge
-from pyvc.symex import explore, Obj, Opaque, PyRaise, make_exc, FuncVal
+from pyvc.symex import explore, built_instance, Obj, Opaque, PyRaise, make_exc, FuncVal
 from pyvc.builtins import EncodedStr
 from contracts.headers import ExtractHeader, BuildHeader
 from contracts.utils_c import Checksum
@@ -154,7 +154,7 @@ class EncoderTask(Task):
             ex.ghost['m'] = m
             frames = frames_for(ex, lengths)
             ex.ghost['frames'] = frames
-            enc = Obj(r.cls('encoder', 'NMEA2000Encoder'), {'sequence_counter': ex.fresh('seq', bits=3)})
+            enc = built_instance(ex, r.cls('encoder', 'NMEA2000Encoder'), {'sequence_counter': ex.fresh('seq', bits=3)})
             if self.fmt == 'actisense':
                 k = ex.choose(len(lengths), 'payload-length')
                 ex.ghost['k'] = k
@@ -224,6 +224,7 @@ class EncoderTask(Task):
 
 
 def finish(obs, out, tier, info, replay=None):
+    gave_up = []
     for ob in obs:
         res = discharge(ob, budget(tier))
         dct = result_dict(res, with_size=False)
@@ -232,7 +233,28 @@ def finish(obs, out, tier, info, replay=None):
             dct['reason'] = ob.meta.get('note', '')
             from contracts.wire_replay import replay_wire
             dct['replay'] = replay_wire(ob, res.model or {})
+        elif res.status != 'discharged':
+            gave_up.append(ob)
         out['results'].append(dct)
+    # the solvers gave up on some obligation: look for a failing input natively over a boundary grid (bounded; a hit is
+    # reported as a violation with that input, no hit leaves the obligation undecided)
+    seen = set()
+    for ob in gave_up:
+        key = (ob.meta.get('fmt'), ob.meta.get('variant'), '/roundtrip[' in ob.name, '/encoder.' in ob.name)
+        if key in seen:
+            continue
+        seen.add(key)
+        from contracts.wire_replay import replay_wire, sample_models
+        n = 0
+        for m in sample_models(ob.meta.get('fmt'), ob.meta.get('variant') or ''):
+            n += 1
+            rp = replay_wire(ob, m)
+            if rp.get('confirmed'):
+                out['results'].append({'obligation': ob.name.rsplit('/path[', 1)[0] + '/bounded-fallback', 'kind': 'bounded', 'status': 'refuted', 'backend': 'native-contract',
+                                       'seconds': 0.0, 'model': {k: v for k, v in m.items() if not k.startswith(('packet[', 'data['))}, 'replay': rp,
+                                       'function': info.fullname if info is not None else '', 'reason': 'the solvers gave up on ' + ob.name + '; failing input found on the boundary grid'})
+                break
+        out['bounded'].append({'function': info.fullname if info is not None else '', 'kind': 'native contract evaluation on a boundary grid (solver gave up)', 'inputs_tried': n, 'label': 'bounded'})
 
 
 # ---- decoders ---------------------------------------------------------------------------------------
@@ -304,7 +326,7 @@ class DecoderTask(Task):
         for vname, vp in variants:
             def run(ex, vp=vp, vname=vname):
                 g = ex.ghost
-                dec = Obj(r.cls('decoder', 'NMEA2000Decoder'), {})
+                dec = built_instance(ex, r.cls('decoder', 'NMEA2000Decoder'))
                 cid = ex.fresh('can_id', bits=32)
                 g['cid'] = cid
                 g['inputs'] = {'can_id': cid.t}
@@ -353,6 +375,12 @@ class DecoderTask(Task):
                 g = p.ex.ghost
                 hyps = list(p.pc)
                 inputs = dict(g.get('inputs', {}))
+                if 'hn' in g:
+                    inputs['header_word'], inputs['pgn'] = g['hn'].t, g['pgn'].t
+                for k2, v2 in (g.get('f') or {}).items():
+                    inputs[k2] = v2.t
+                if 'length' in g and isinstance(g['length'], Sym):
+                    inputs['length'] = g['length'].t
                 for key in ('pk', 'data'):
                     if key in g:
                         for i, b in enumerate(g[key].items if isinstance(g[key], SBytes) else g[key]):
